@@ -14,7 +14,7 @@ NOT_PROVED = ["stored_before_deleted_delivery_stmt (Proofs/EventsXBroker.v): acr
 def nontrivial(kind, ins, outs):
     if kind == "conc":      # forced schedule: at least two concurrent operations and a non-empty schedule
         return len(ins) == 5 and "," in ins[3] and ins[4] not in ("-", "")
-    if kind in ("sched", "xbroker"):
+    if kind in ("sched", "sched2", "churn", "xbroker"):
         return True
     ops = ins[4].split(",") if len(ins) > 4 else []
     return any(o.startswith("a") for o in ops) and any(o[0] in "gsr" for o in ops)
